@@ -173,6 +173,16 @@ func (s *Sim) applySvc(op *SvcOp) bool {
 		s.stat("fault.silent_mutation", 1)
 		return true
 
+	case "silentdelete":
+		_, v := w.lookup(ridOf(op.Name, op.Query))
+		if v == nil || v.Deleted {
+			return false
+		}
+		v.Deleted = true
+		v.Dirty = true
+		s.stat("fault.silent_delete", 1)
+		return true
+
 	case "reset":
 		payload, _ := json.Marshal(map[string]any{"resources": op.Res, "access": op.Acc})
 		if op.Raw != "" {
@@ -291,6 +301,39 @@ func (s *Sim) answer(r *Req, outcome string) {
 	if r.Type == "get" || r.Type == "query" {
 		fifo = r.Name
 	}
+	if r.Type == "query" && (outcome == "timeout" || outcome == "noresp" || outcome == "noresult" || strings.HasPrefix(outcome, "err:") || strings.HasPrefix(outcome, "raw:")) {
+		if res := s.W.Res[r.Name]; res != nil && res.V != nil {
+			if v := res.V[r.Query]; v != nil {
+				if outcome == "err:system.notFound" || outcome == "noresp" {
+					v.announce(&StreamEv{Kind: "delete", Derived: true, EmitStep: s.Step, EmitCut: s.Cut}, true)
+					s.sawDerived[v] = true
+				} else {
+					// the gateway cannot learn what the query event changed
+					s.refetchFailed[v] = true
+				}
+			}
+		}
+	}
+	if r.Type == "get" && outcome != "ok" {
+		s.mu.Lock()
+		rf := s.isRefetch(r)
+		s.mu.Unlock()
+		if rf {
+			if res := s.W.Res[r.Name]; res != nil && res.V != nil {
+				if v := res.V[r.Query]; v != nil {
+					notFound := outcome == "err:system.notFound" || outcome == "noresp"
+					if notFound {
+						// the gateway turns a not-found re-fetch into a delete event
+						v.announce(&StreamEv{Kind: "delete", Derived: true, EmitStep: s.Step, EmitCut: s.Cut}, true)
+						s.sawDerived[v] = true
+						s.deletedByRefetch[v] = true
+					} else {
+						s.noteRefetchAnswer(r, v, nil, false)
+					}
+				}
+			}
+		}
+	}
 	switch {
 	case outcome == "timeout":
 		s.stat("fault.timeout", 1)
@@ -370,15 +413,51 @@ func (s *Sim) answerGet(r *Req) {
 	}
 	norm, ok := res.normalise(r.Query)
 	v := res.V[norm]
+	s.mu.Lock()
+	refetch := s.isRefetch(r)
+	s.mu.Unlock()
 	if !ok || v == nil || v.Deleted {
+		if refetch && v != nil && !v.deleteAnnounced() {
+			// silently deleted: the not-found answer makes the gateway send a delete event
+			v.announce(&StreamEv{Kind: "delete", Derived: true, EmitStep: s.Step, EmitCut: s.Cut}, true)
+			s.sawDerived[v] = true
+		}
 		tr.enqueueReply(r, r.Name, []byte(errJSON("system.notFound")), nil, nil)
 		return
 	}
+	if refetch {
+		s.noteRefetchAnswer(r, v, v.Announced, true)
+	}
 	v.Gets++
+	// does the gateway certainly use this answer? yes for a reset re-fetch and for
+	// the first load of the variant under the current event subscription; an
+	// answer to a further get (another query normalised to the same one) is
+	// discarded by a gateway that has the variant cached
+	s.mu.Lock()
+	first := true
+	for _, q := range s.tr.reqs {
+		if q != r && q.Type == "get" && q.Name == r.Name && q.SubGen == r.SubGen && q.GotData {
+			if n, ok := res.normalise(q.Query); ok && n == norm {
+				first = false
+			}
+		}
+	}
+	s.mu.Unlock()
+	r.GotData = true
 	snap := v.Actual.clone()
+	if v.Dirty && !refetch && !first {
+		// silently mutated and possibly cached: what the gateway holds stays
+		// undetermined until a reset re-fetch (the variant remains exempt)
+		p := `{"result":` + snap.serviceJSON()
+		if res.IsQuery {
+			p += `,"query":` + jstr(norm)
+		}
+		tr.enqueueReply(r, r.Name, []byte(p+"}}"), nil, nil)
+		return
+	}
 	v.Announced = snap
+	v.AnnVer = v.Ver
 	v.Dirty = false
-	v.PendingQ = nil
 	v.Stream = append(v.Stream, &StreamEv{Pos: len(v.Stream), Kind: "snap", After: snap, Lost: !w.eventSubscribed(r.Name)})
 	p := `{"result":` + snap.serviceJSON()
 	if res.IsQuery {
